@@ -559,6 +559,10 @@ def check_c16(tier, seed):
                 jobs.append(("dangle-%d-%d-%d" % (sh, c, sd), "dangle", [sh, c, sd]))
     for sh in controls:
         jobs.append(("control-%d" % sh, "dangle", [sh, 0, seed]))
+    # clone / drop / to_dyn! histories of the owning and static Reference variants
+    nref = 12 if tier == "quick" else 60
+    for part in range(1 if tier == "quick" else 4):
+        jobs.append(("refs-%d" % part, "refs", [seed + 1000 * part, nref]))
     results = miri_run_many(jobs)
     miri_cases = 0
     ub_reports = 0
@@ -588,6 +592,21 @@ def check_c16(tier, seed):
             violations += 1
             lines.append("VIOLATION property=%s replay=%s" % (prop, dest))
             lines.append("  signature=%s detail=%s" % (sig, (what or ["failed"])[0].strip()))
+        elif key.startswith("refs"):
+            done = [l for l in out.splitlines() if l.startswith("DONE cases=")]
+            if rc == 0 and done:
+                miri_cases += int(done[-1].split("=")[1])
+                continue
+            case = [l for l in out.splitlines() if l.startswith("CASE ")]
+            miri_cases += len(case)
+            args = next(j[2] for j in jobs if j[0] == key)
+            sig = "C16|miri_ub|reference_histories"
+            what = [l for l in out.splitlines() if "Undefined Behavior" in l or "panicked" in l or "memory leaked" in l]
+            dest = write_miri_replay(prop, "%s-seed%d" % (key, seed), "refs", args, sig, (what or ["failed"])[0])
+            violations += 1
+            ub_reports += 1
+            lines.append("VIOLATION property=%s replay=%s" % (prop, dest))
+            lines.append("  signature=%s detail=%s (last case: %s)" % (sig, (what or ["failed"])[0].strip(), case[-1] if case else "?"))
         elif key.startswith("control"):
             shapes_run += 1
             sh = int(key.split("-")[1])
